@@ -89,6 +89,12 @@ def make_field(grid, fam, image):
                 return field, None
         field.data[SPECK[fam]] = 1.0
         return field, None
+    if image == "small-first":
+        # the same three places, the smallest droplet first in scan order (radii ascending along the first axis / z)
+        order = sorted(range(len(ds)), key=lambda k: (ds[k].position[-1] if fam in ("cyl", "cyla") else ds[k].position[0]))
+        radii = sorted(d.radius for d in ds)
+        ds = [DiffuseDroplet(ds[k].position, r, 0.5) for k, r in zip(order, radii)]
+        return Emulsion(ds).get_phasefield(grid), len(ds)
     n = {"one": 1, "two": min(2, len(ds)), "three": len(ds)}[image]
     return Emulsion(ds[:n]).get_phasefield(grid), n
 
@@ -126,9 +132,19 @@ class C19(Property):
         for fam, per in (("cart1m", [True]), ("cart2m", [False, True])):
             for n in (9, 13, 21, 26):
                 jobs.append({"domain": "parallel-refinement", "family": fam, "periodic": per, "n": n})
+        # a minimal radius that removes some candidates (the first one in scan order, or the last one) and keeps the others
+        for fam, per in (("cart1", [True]), ("cart2", [False, True]), ("cart3", [True, False, True]), ("cyl", [False]), ("cyl", [True])):
+            jobs.append({"domain": "minimal-radius", "family": fam, "periodic": per})
         return jobs
 
     def expand(self, job):
+        if job["domain"] == "minimal-radius":
+            for image in ("three", "small-first"):
+                for modes in ((0,) if job["family"] == "cart1" else (0, 2)):
+                    for width in WIDTHS:
+                        for refine in (False, True):
+                            yield {"family": job["family"], "periodic": job["periodic"], "modes": modes, "refine": refine, "interface_width": width, "threshold": 0.5, "image": image, "minimal_radius": "between-smallest-and-next"}
+            return
         if job["domain"] == "parallel-refinement":
             for modes in ((0,) if job["family"] == "cart1m" else (0, 2)):
                 for width in WIDTHS:
@@ -152,6 +168,13 @@ class C19(Property):
         field, n_true = make_field(grid, fam, spec["image"])
         ctx.cls(fam, f"modes{modes}", f"refine:{refine}", f"width:{width}", f"thr:{spec['threshold']}", f"image:{spec['image']}")
         kwargs = dict(threshold=spec["threshold"], modes=modes, interface_width=width, refine=refine)
+        if spec.get("minimal_radius"):
+            # between the two smallest cluster radii of this image: the smallest candidate is removed, the others are kept
+            radii = sorted(float(d.radius) for d in locate_droplets(field, threshold=spec["threshold"]))
+            if len(radii) >= 2 and radii[1] > radii[0] * 1.02:
+                kwargs["minimal_radius"] = 0.5 * (radii[0] + radii[1])
+                ctx.cls("minimal-radius-removes-a-candidate")
+                n_true = None  # the count is not judged here (refinement may move a radius across the bound; C18 has that clause)
         if spec.get("num_processes"):
             kwargs["num_processes"] = spec["num_processes"]
             ctx.cls(f"processes:{spec['num_processes']}")
@@ -196,7 +219,7 @@ class C19(Property):
             ctx.require(d.dim == grid.dim, "dim", f"droplet dim {d.dim} on a grid of dim {grid.dim}")
             if modes > 0:
                 ctx.require(hasattr(d, "amplitudes") and len(d.amplitudes) == modes and d.data["amplitudes"].shape == (modes,), "amplitude-count", f"{getattr(d, 'amplitudes', None)} for modes={modes}")
-                if not refine:
+                if not refine and hasattr(d, "amplitudes"):
                     ctx.require(bool(np.all(d.amplitudes == 0)), "unrefined-amplitudes-nonzero", f"{d.amplitudes}")
             else:
                 ctx.require(not hasattr(d, "amplitudes"), "unexpected-amplitudes", "modes=0 but the droplet has amplitudes")
